@@ -445,6 +445,15 @@ func (p *Prog) checkCastValue(r *Report, rule string, fn *ssa.Function, mu *ssa.
 	} else {
 		r.Bad(rule, n, what+" depends on "+strings.Join(opts, ","), p.Pos(mu.Pos()), fmt.Sprintf("missing influence: %v", miss))
 	}
+	// only element text is trimmed: an attribute value is stored as written (non-interference with the trim set)
+	if what == "attribute value" {
+		di := p.influence(fn, false, c.Call.Args[0])
+		if g := p.Globals["mxj.trimRunes"]; g != nil && di.globals[g] {
+			r.Bad(rule, n, what+" is not trimmed", p.Pos(mu.Pos()), "the attribute value handed to cast() is computed from trimRunes: leading and trailing white space of attribute values is removed, although only element text is documented as trimmed")
+		} else {
+			r.OK(rule, n, what+" is not trimmed", p.Pos(mu.Pos()), "no data dependence on trimRunes")
+		}
+	}
 }
 
 // ruleInflFieldSep: the separator used to split sub-key and new-value specifications is the fieldSep variable.
